@@ -146,9 +146,8 @@ theorem parseX_NsOK (s : CliSpec) (h : OptsStd s) (argv : List String) (b : Ns) 
     exact ⟨o, ho, by simp [hd, ha]⟩
 
 /-- the answers of the extended interpreter -/
-def Answers (s : CliSpec) (argv : List String) (r : Except PErr Built) : Prop :=
-  (∃ x, r = .ok x) ∨ r = .error .cliError ∨ r = .error .helpExit ∨
-  (r = .error (.crash "TypeError") ∧ ∃ b, parseX s argv = .ok b ∧ hasQuirk s b = true)
+def Answers (r : Except PErr Built) : Prop :=
+  (∃ x, r = .ok x) ∨ r = .error .cliError ∨ r = .error .helpExit
 
 theorem instantiate_class (ns : Ns) (t : CallTemplate) (hr : (t.raises == "" || shielded t.raises) = true) :
     (∃ c, instantiate ns t = .ok c) ∨ instantiate ns t = .error .cliError ∨
@@ -172,7 +171,7 @@ theorem instantiate_class (ns : Ns) (t : CallTemplate) (hr : (t.raises == "" || 
 /-- TOTALITY ON EVERY LIST OF TOKENS, sub-commands with standard options -/
 theorem dispatchX_total_std (tool : String) (ord : List String → Nat) (s : CliSpec) (ht : totalClassExt s = true)
     (hof : s.templates.all templateOrderFree = true) (hni : s.inline = false) (hgood : ∀ o ∈ s.opts, goodOpt o = true)
-    (argv : List String) : Answers s argv (dispatchSpecX tool ord s argv) := by
+    (argv : List String) : Answers (dispatchSpecX tool ord s argv) := by
   have hstd := dtot_totalClassExt_std s ht
   have hopts : OptsStd s := dtot_std_opts s hstd
   have hsup : s.supported = true := by unfold CliSpec.supported; simp [hstd]
@@ -203,7 +202,7 @@ theorem dispatchX_total_std (tool : String) (ord : List String → Nat) (s : Cli
         | error e =>
           obtain ⟨w, rfl⟩ := selectTemplate_err _ _ e hsel
           simp only [liftErr, quirkCrash, hq, if_true]
-          exact Or.inr (Or.inr (Or.inr ⟨rfl, b, hb, hq⟩))
+          exact Or.inr (Or.inl rfl)
         | ok t =>
           dsimp only
           have htm := selectTemplate_mem (namespaceOf s b) s.templates t hsel
@@ -212,7 +211,7 @@ theorem dispatchX_total_std (tool : String) (ord : List String → Nat) (s : Cli
           · rw [hc]; exact Or.inr (Or.inl rfl)
           · rw [hc]
             simp only [liftE, liftErr, Except.map, quirkCrash, hq, if_true]
-            exact Or.inr (Or.inr (Or.inr ⟨rfl, b, hb, hq⟩))
+            exact Or.inr (Or.inl rfl)
       · have hq' : hasQuirk s b = false := by simpa using hq
         obtain ⟨t, _, hsel, hins⟩ := n_eval_total s ht b (parseX_NsOK s hopts argv b hb hq')
         rw [hsel]
@@ -221,7 +220,7 @@ theorem dispatchX_total_std (tool : String) (ord : List String → Nat) (s : Cli
         · rw [hc]; exact Or.inl ⟨_, rfl⟩
         · rw [hc]; exact Or.inr (Or.inl rfl)
     · rw [hb]; exact Or.inr (Or.inl rfl)
-    · rw [hb]; exact Or.inr (Or.inr (Or.inl rfl))
+    · rw [hb]; exact Or.inr (Or.inr rfl)
 
 /-! ### the helpers that build their formula inline -/
 
@@ -257,7 +256,7 @@ theorem numeric_lookup (s : CliSpec) (hopts : OptsStd s)
 
 theorem dispatchX_total_inline (tool : String) (ord : List String → Nat) (s : CliSpec) (hin : s.inline = true)
     (htab : inlineTableOK s = true) (hgood : ∀ o ∈ s.opts, goodOpt o = true) (argv : List String) :
-    Answers s argv (dispatchSpecX tool ord s argv) := by
+    Answers (dispatchSpecX tool ord s argv) := by
   have hsx : s.supportedX = true := by unfold CliSpec.supportedX; simp [hin]
   unfold dispatchSpecX
   simp only [hsx, hin, Bool.not_true, Bool.false_eq_true, if_false, if_true]
@@ -339,6 +338,6 @@ theorem dispatchX_total_inline (tool : String) (ord : List String → Nat) (s : 
             have h2 : (s.cls == "FALSE") = false := by rw [hc]; decide
             simp only [h1, h2, h3, Bool.false_eq_true, if_false, if_true]; exact Or.inl ⟨_, rfl⟩
     · rw [hb]; exact Or.inr (Or.inl rfl)
-    · rw [hb]; exact Or.inr (Or.inr (Or.inl rfl))
+    · rw [hb]; exact Or.inr (Or.inr rfl)
 
 end Cnfgen.Cli.AP
